@@ -149,8 +149,10 @@ def judge(w, src, fmt=False):
             else:
                 if k != base["sql.generic"]:
                     bad("default_not_generic", o, h, k, base["sql.generic"])
-            if o is None and h != HDR_UNKNOWN:
-                # resolver acceptance must not depend on the target
+            if o is None:
+                # resolver acceptance must not depend on the target (an unknown name is an
+                # error of the SQL back end, which is where the target is looked up; the
+                # resolver's verdict on the program is the same as without the header)
                 acc = "rqcheck" in r
                 if ("rq_panic" not in r) and acc != rq_accept0:
                     bad("resolver_acceptance_depends_on_target", o, h, "accepted" if acc else "rejected",
@@ -162,7 +164,12 @@ def judge(w, src, fmt=False):
             obs["cells"].add((_cls(o), _cls(h)))
             if k != base[o]:
                 bad("option_not_overriding_header", o, h, k, base[o])
-        # (option, unknown header): not judged — the statement does not say which wins
+        # (option, unknown header): "an explicit option overrides a different header" — the
+        # header's name is never looked up, so the output is the option's
+        k = outkey(comp(header(HDR_UNKNOWN) + src, o))
+        obs["cells"].add((_cls(o), "unknown"))
+        if k != base[o]:
+            bad("option_not_overriding_unknown_header", o, HDR_UNKNOWN, k, base[o])
         obs["cells"].add((_cls(o), "absent"))
     r = comp(src, OPT_UNKNOWN)
     obs["cells"].add(("unknown", "absent"))
@@ -235,7 +242,7 @@ def run(tier, seed):
         "programs": obs.get("programs", 0),
         "programs_accepted_by_some_dialect": obs.get("accepted_somewhere", 0),
         "matrix_cells_covered": len(cells),
-        "matrix_cells_expected": 2 * 15 - 1 + 12 * 12 + 12 + 1,
+        "matrix_cells_expected": 2 * 15 - 1 + 12 * 12 + 12 + 12 + 1,
         "skipped_abort_or_watchdog": obs.get("skipped_abort_or_watchdog", 0),
         "skipped_unparseable": obs.get("skipped_unparseable", 0),
         "unstable_cells_skipped": obs.get("unstable_cells_skipped", 0),
@@ -246,7 +253,9 @@ def run(tier, seed):
     run.assumptions = [
         "outputs compared with signature_comment off (the signature legitimately echoes only an option target)",
         "errors compared on (reason, hints): spans shift when a header line is prepended",
-        "(explicit option, unknown header) is not judged: the statement does not say which of 'option overrides' and 'unknown is an error' wins",
+        "(explicit option, unknown header) is read as 'an explicit option overrides a different header': the header's name is not looked up and the option's SQL is emitted; "
+        "'an unknown target name is an error' is judged where that name is the one in force (unknown option; unknown header with no option or sql.any)",
+        "an unknown header does not change the resolver's verdict (pl_to_rq) on the program: the name is an error of the SQL stage",
         "header value sql.any is treated as 'no dialect chosen' (generic), as Target::from_str documents",
     ]
     return run
